@@ -302,6 +302,38 @@ def _b_body(ti, a, b):
     return _check_excerpt(x, rows, model, dsig, a, b, cname)
 
 
+# ------------------------------------------------------------------ C08.c excerpts far down a long score
+LONG = ((300, 0), (1200, 0), (1200, 600))
+
+
+def ob_c(k: int, w: int) -> bool:
+    assume(0 <= k < len(LONG) and 0 <= w < 6)
+    return _c_body(choose(k, len(LONG)), choose(w, 6))
+
+
+@native
+def _c_body(k, w):
+    """Scores of hundreds of measures (kern + text, one split + join in the third variant): excerpts near the start, in the middle,
+    right behind the join and at the very end are well formed, re-import cleanly and keep clef and meter for every note."""
+    from sv.ref import longdoc
+    key = ('c', k)
+    if key not in _CACHE:
+        D = longdoc.long_doc(LONG[k][0], True, LONG[k][1], comments=False)
+        rows = [[c.source() for c in r] for r in D.rows]
+        text = D.text()
+        doc, errs = kp.loads(text)
+        _CACHE[key] = (rows, text, doc, list(errs), model_signatures(rows), doc_signatures(doc), longdoc.n_measures(D))
+    rows, text, doc, errs, model, dsig, M = _CACHE[key]
+    check(not errs, 'import errors')
+    split_measure = (LONG[k][1] // 4 + 3) if LONG[k][1] else M // 3
+    a, b = ((2, 3), (M // 2, M // 2 + 2), (split_measure, split_measure + 1), (M - 40, M - 38), (M - 2, M - 1), (M - 1, M))[w]
+    try:
+        x = kp.dumps(doc, from_measure=a, to_measure=b, spine_types=['**kern'])
+    except Exception as e:
+        check(False, f'score of {M} measures: dumps(from_measure={a}, to_measure={b}) raised {type(e).__name__}: {str(e)[:120]}')
+    return _check_excerpt(x, rows, model, dsig, a, b, f'score of {M} measures: excerpt')
+
+
 def _desc(shape, a=None, b=None):
     return {'text': sp.to_text(build(*SHAPES[shape])), 'from_measure': a, 'to_measure': b}
 
@@ -317,6 +349,10 @@ OBLIGATIONS = [
        bounds={'quick': 'M in {2,3} x 2 of 4 signature sets per M (clef/key/meter/meter symbol, per-spine clefs) x {1 kern, 2 kern, kern+text} x {no split, split+join in measure 1 / 2, '
                         'nested split with stepwise join in measure 1 / M} x spine-0 content {notes, chords/notes alternating, notes/chords/rests, chords only} x final barline '
                         '(every second plain combination); + global comments directly after every barline / around the score', 'thorough': 'M in {2,3,4}, all combinations'}, describe=_desc),
+    Ob(id='C08.c', fn=ob_c, title='excerpts near the start, in the middle, behind a join and at the end of scores with hundreds of measures',
+       shard_of=lambda k, w: k, shards={'quick': 3, 'thorough': 3}, budget_s={'quick': 150, 'thorough': 600}, native_body=True,
+       witnesses=[{'k': 0, 'w': 1}], min_confirmed=12, enumerated='score (3), window (6)',
+       bounds={'quick': 'kern + text scores of 300 / 1200 data rows (75 / 300 measures), the last one with a split + join in the middle; 6 windows each', 'thorough': 'same'}),
     Ob(id='C08.b', fn=ob_b, title='tracked classes: mid-score signature change, excerpt starting inside a split, non-kern spines in the excerpt',
        shard_of=lambda t, a, b: t, shards={'quick': 4, 'thorough': 4}, budget_s={'quick': 150, 'thorough': 600},
        witnesses=[{'t': 0, 'a': 1, 'b': 1}], min_confirmed=20, enumerated='tracked shape, a, b',
